@@ -3,7 +3,7 @@ From Coq Require Import String.
 From Coq Require Import List NArith ZArith Sorted.
 From TarsV Require Import Base.Hex Idl.Lexer Idl.LexerProofs Idl.Parser Idl.ParserProofs Idl.Corr.
 From TarsV Require Import Idl.Print Idl.Render.
-From TarsV Require Idl.Schema Idl.SchemaProofs Idl.PrintProofs Idl.RenderProofs Idl.AnalyzeProofs Idl.Accepts Idl.TablesProofs Idl.Include Idl.IncludeProofs Gen.C16Tables Gen.C16Translated Xlate.GoSem Codec.GenCodec Codec.Corr.
+From TarsV Require Idl.Schema Idl.SchemaProofs Idl.PrintProofs Idl.RenderProofs Idl.AnalyzeProofs Idl.Accepts Idl.TablesProofs Idl.GenTablesProofs Idl.Include Idl.IncludeProofs Gen.C16Tables Gen.C16Translated Xlate.GoSem Codec.GenCodec Codec.Corr.
 Import ListNotations.
 Open Scope N_scope.
 
@@ -174,6 +174,23 @@ Theorem C16_type_predicates_translated : forall t, In t TablesProofs.all_toks ->
   C16Translated.tr_c16_IsNumberType (Z.of_N (TablesProofs.tok_code t)) = GoSem.Return (match t with TTy b => num_bty b | _ => false end).
 Proof. intros t H. exact (conj (TablesProofs.tr_IsType_equiv t H) (TablesProofs.tr_IsNumberType_equiv t H)). Qed.
 
+(* the generator's per-type tables (gen_go.go genType / typeDef through the verif hook, utils.UpperFirstLetter) are what
+   Idl/Schema.v assumes: Go type of every scalar IDL type, zero text of an optional member without default, capitalisation *)
+Theorem C16_gentype_regenerated : forall m b u t, Schema.ty_of m (VBase b u) = Some t ->
+  GenTablesProofs.lookup_gt (TablesProofs.bty_code b) u C16Tables.c16_gentype = Some (GenTablesProofs.ty_go_name t, true).
+Proof. exact GenTablesProofs.gentype_scalars. Qed.
+Theorem C16_typedef_regenerated : forall m b t, Schema.ty_of m (VBase b false) = Some t ->
+  GenTablesProofs.lookup_td (TablesProofs.bty_code b) C16Tables.c16_typedef = Some (GenTablesProofs.zero_text t, true).
+Proof. exact GenTablesProofs.typedef_scalars. Qed.
+Theorem C16_names_regenerated :
+  map (fun p => GenTablesProofs.go_user_name (fst p)) C16Tables.c16_gentype_names = map snd C16Tables.c16_gentype_names /\
+  (map (fun b => upper_first [b]) GenTablesProofs.ascii = C16Tables.c16_upper_first_1 /\
+   map (fun b => upper_first [b; 120]) GenTablesProofs.ascii = C16Tables.c16_upper_first_2 /\
+   upper_first [] = C16Tables.c16_upper_first_empty).
+Proof. exact (conj GenTablesProofs.gentype_names GenTablesProofs.upper_first_regenerated). Qed.
+Print Assumptions C16_gentype_regenerated.
+Print Assumptions C16_typedef_regenerated.
+Print Assumptions C16_names_regenerated.
 Print Assumptions C16_keywords_regenerated.
 Print Assumptions C16_lexer_probes.
 Print Assumptions C16_int_literal_range_pos.
